@@ -1059,3 +1059,31 @@ package decimal128
 //@ ensures !special(d) && coef(d) != 0 && bexp(d) < 6176 && rs(V, 6176) < 0.1 ==> !special(r) && coef(r) == 0 && bexp(r) == 0 && sign(r) == sign(d)
 //@ ensures !special(d) && coef(d) != 0 && bexp(d) < 6176 && rs(V, 6176) >= 0.1 ==> sign(r) == sign(d) && !special(r) && rs(VC, bexp(r)) == coef(r)
 //@ props C08 C19 C20
+
+// uint128.div: general divisor. The path o[1] != 0 estimates the quotient from the
+// top 64 bits of the normalised divisor (one 128/64 division), corrects it downward by
+// one and upward by at most one; proved per value of the normalisation shift.
+//@ func uint128.div
+//@ uses timeout=150
+//@ returns (q, r)
+//@ requires u128(o) != 0
+//@ ensures u128(n) == u128(q) * u128(o) + u128(r) && u128(r) < u128(o)
+//@ split i in 0..63
+//@ assert before "r0, _ := bits.Div64(v[1], v[0], u[1])": u128(u) == u128(o) * pow2(i) && 2 * u128(v) <= u128(n) && u128(n) <= 2 * u128(v) + 1 && u[1] >= 9223372036854775808 && v[1] < 9223372036854775808
+//@ assert before "r := uint128{r0, 0}": r0 * u128(o) <= u128(n) && u128(n) < (r0 + 2) * u128(o)
+//@ props C02 C03 C10 C20
+
+// shifts by a symbolic count (bit-vector model; the statements are theory neutral so that
+// integer-model callers can use them): left shift is multiplication by 2^o modulo 2^128,
+// right shift is floor division by 2^o.
+//@ func uint128.lsh
+//@ mode bv
+//@ returns (r)
+//@ ensures o <= 128 ==> u128(r) == shl(u128(n), o) % (W*W)
+//@ props C02 C09 C20
+
+//@ func uint128.rsh
+//@ mode bv
+//@ returns (r)
+//@ ensures o <= 128 ==> u128(r) == shr(u128(n), o)
+//@ props C02 C09 C20
